@@ -102,8 +102,14 @@ func parserBuiltinArity(p *core.Program) map[string]int64 {
 				if !ok {
 					continue
 				}
-				st, ok := mt.Elem().Underlying().(*types.Struct)
-				if !ok || st.NumFields() != 1 {
+				if kb, ok := mt.Key().Underlying().(*types.Basic); !ok || kb.Kind() != types.String {
+					continue
+				}
+				// the entry is the arity itself (map[string]int) or a one-field record of it
+				plain := false
+				if b, ok := mt.Elem().Underlying().(*types.Basic); ok && b.Info()&types.IsInteger != 0 {
+					plain = true
+				} else if st, ok := mt.Elem().Underlying().(*types.Struct); !ok || st.NumFields() != 1 {
 					continue
 				}
 				for _, el := range cl.Elts {
@@ -112,13 +118,19 @@ func parserBuiltinArity(p *core.Program) map[string]int64 {
 						continue
 					}
 					name, ok := constStringOf(info, kv.Key)
-					vl, ok2 := kv.Value.(*ast.CompositeLit)
-					if !ok || !ok2 || len(vl.Elts) != 1 {
+					if !ok {
 						continue
 					}
-					e := vl.Elts[0]
-					if kv2, ok := e.(*ast.KeyValueExpr); ok {
-						e = kv2.Value
+					e := kv.Value
+					if !plain {
+						vl, ok2 := kv.Value.(*ast.CompositeLit)
+						if !ok2 || len(vl.Elts) != 1 {
+							continue
+						}
+						e = vl.Elts[0]
+						if kv2, ok := e.(*ast.KeyValueExpr); ok {
+							e = kv2.Value
+						}
 					}
 					if tv, ok := info.Types[e]; ok && tv.Value != nil {
 						if n, ok := constInt(tv); ok {
@@ -456,6 +468,111 @@ type primInfo struct {
 	pos      token.Pos
 }
 
+// opcodeTableFunc: e is TABLE[k] with TABLE a package-level map of package vm initialised by a
+// literal whose keys are opcode constants and whose values name functions, and never written
+// afterwards: the function stored under the opcode named op. The key k must be a plain variable
+// (the dispatch variable: a clause shared by several opcodes is read once per opcode).
+func opcodeTableFunc(p *core.Program, info *types.Info, e ast.Expr, op string) *types.Func {
+	ix, ok := eng.Unparen(e).(*ast.IndexExpr)
+	if !ok {
+		return nil
+	}
+	tid, ok := eng.Unparen(ix.X).(*ast.Ident)
+	if !ok {
+		return nil
+	}
+	if _, isVar := eng.Unparen(ix.Index).(*ast.Ident); !isVar {
+		return nil
+	}
+	tv, ok := info.Uses[tid].(*types.Var)
+	if !ok || tv.Pkg() == nil || tv.Parent() != tv.Pkg().Scope() {
+		return nil
+	}
+	pk := p.Pkg("vm")
+	// never written
+	for _, fd := range p.FuncDecls("vm") {
+		if fd.Body == nil {
+			continue
+		}
+		written := false
+		ast.Inspect(fd.Body, func(n ast.Node) bool {
+			switch x := n.(type) {
+			case *ast.AssignStmt:
+				for _, l := range x.Lhs {
+					base := eng.Unparen(l)
+					if ixl, ok := base.(*ast.IndexExpr); ok {
+						base = eng.Unparen(ixl.X)
+					}
+					if id, ok := base.(*ast.Ident); ok && info.Uses[id] == types.Object(tv) {
+						written = true
+					}
+				}
+			case *ast.CallExpr:
+				if isBuiltinCall(info, x, "delete") && len(x.Args) > 0 {
+					if id, ok := eng.Unparen(x.Args[0]).(*ast.Ident); ok && info.Uses[id] == types.Object(tv) {
+						written = true
+					}
+				}
+			case *ast.UnaryExpr:
+				if x.Op == token.AND {
+					if id, ok := eng.Unparen(x.X).(*ast.Ident); ok && info.Uses[id] == types.Object(tv) {
+						written = true
+					}
+				}
+			}
+			return true
+		})
+		if written {
+			return nil
+		}
+	}
+	for _, f := range pk.Syntax {
+		for _, d := range f.Decls {
+			gd, ok := d.(*ast.GenDecl)
+			if !ok {
+				continue
+			}
+			for _, sp := range gd.Specs {
+				vs, ok := sp.(*ast.ValueSpec)
+				if !ok || len(vs.Names) != 1 || len(vs.Values) != 1 || info.Defs[vs.Names[0]] != types.Object(tv) {
+					continue
+				}
+				cl, ok := eng.Unparen(vs.Values[0]).(*ast.CompositeLit)
+				if !ok {
+					return nil
+				}
+				var hit *types.Func
+				nHit := 0
+				for _, el := range cl.Elts {
+					kv, ok := el.(*ast.KeyValueExpr)
+					if !ok {
+						return nil
+					}
+					kid, ok := eng.Unparen(kv.Key).(*ast.Ident)
+					if !ok || kid.Name != op {
+						continue
+					}
+					if _, isConst := info.Uses[kid].(*types.Const); !isConst {
+						continue
+					}
+					nHit++
+					switch v := eng.Unparen(kv.Value).(type) {
+					case *ast.Ident:
+						hit, _ = info.Uses[v].(*types.Func)
+					case *ast.SelectorExpr:
+						hit, _ = info.Uses[v.Sel].(*types.Func)
+					}
+				}
+				if nHit == 1 {
+					return hit
+				}
+				return nil
+			}
+		}
+	}
+	return nil
+}
+
 func handlerPrimitives(p *core.Program, e *engines, op string) ([]primInfo, string) {
 	h := e.vm.Handlers[op]
 	if h == nil {
@@ -563,6 +680,11 @@ func handlerPrimitives(p *core.Program, e *engines, op string) ([]primInfo, stri
 		switch x := arg.(type) {
 		case *ast.CallExpr:
 			fn := eng.CalleeOf(info, x)
+			if fn == nil {
+				// the primitive looked up in a constant table by the opcode being dispatched
+				// (`test := stringTests[op]` … `test(a, b)`)
+				fn = opcodeTableFunc(p, info, resolve(x.Fun, 0), op)
+			}
 			switch {
 			case fn == nil:
 				pi.name = "dynamic call " + eng.ExprStr(x.Fun)
